@@ -231,7 +231,7 @@ class G:
         t = Ty(self.fresh("U"))
         t.kind = "union_enum"
         t.is_union = True
-        ns = r.choice(["nsu", "nsu.deep", "u2"])
+        ns = r.choice(["nsu", "nsu.deep", "u2", "", ""])
         attrs = [f'#[avro_schema(namespace = "{ns}")]']
         variants, arms, cats = [], [], set()
         if r.random() < 0.6:
@@ -260,7 +260,7 @@ class G:
             k += 1
             vname = f"V{k}"
             if branch is None:
-                branch = f"{ns}.{t.name}.{vname}"
+                branch = f"{ns}.{t.name}.{vname}" if ns else f"{t.name}.{vname}"
             variants.append(f'\t#[serde(rename = "{branch}")]\n\t{vname}({fattr}{ty}),')
             arms.append(f"{t.name}::{vname}(Gen::gen(r, d + 1))")
         if len(arms) < 1:
